@@ -1,7 +1,8 @@
 (* C16 — model of cdata indexing, slicing and pointer arithmetic (src/c/_cffi_backend.c):
-     _cdata_get_indexed_ptr :2469, _cdata_getslicearg :2519, cdata_slice :2572, cdata_ass_slice :2597,
-     cdata_subscript / cdata_ass_sub :2712-2746, _cdata_add_or_sub :2749, cdata_sub :2807,
-     direct_typeoffsetof :6643 (integer branch), ffi_addressof (src/c/ffi_obj.c:536).
+     _cdata_get_indexed_ptr :2505, _cdata_getslicearg :2555, cdata_slice :2612, cdata_ass_slice :2637,
+     cdata_subscript / cdata_ass_sub :2752-2786, _cdata_add_or_sub :2789, cdata_sub :2847 (its arithmetic is
+     regenerated: C16/Gen.v gen_sub_prog), direct_typeoffsetof :6702 (integer branch),
+     ffi_addressof (src/c/ffi_obj.c:538).
    Addresses are integers modulo 2^64; Py_ssize_t is 64-bit two's complement.  Conversions of Python
    values to item bytes (convert_from_object) are NOT modelled here (property C03/C05): an operation
    carries, per value, either the item's bytes or the exception class the conversion raises.
